@@ -95,6 +95,34 @@ func boardtrace(args []string) {
 		for i := 0; i < *n && !full(); i++ {
 			material(g, int64(i)+*seed*32452843)
 		}
+	case "allmoves":
+		// every legal move of every corpus position pushed on a game board and taken back; after the
+		// special moves (captures, promotions, castling, en passant, double steps) every reply as well
+		for i, e := range corpus.All() {
+			if i%*shards != *shard || full() {
+				continue
+			}
+			pr := g.NewProg(int64(i) + *seed*86028121)
+			l, err := pr.New(e.Fen)
+			if err != nil {
+				out.Fatalf("%v", err)
+			}
+			legal, _ := gen.LegalOf(l.B)
+			for _, m := range legal {
+				if !pr.Push(l, m) {
+					continue
+				}
+				if m.Type != board.Normal && m.Type != board.Push {
+					replies, _ := gen.LegalOf(l.B)
+					for k, rm := range replies {
+						if (rm.Type != board.Normal && rm.Type != board.Push || k%5 == 0) && pr.Push(l, rm) {
+							pr.Pop(l)
+						}
+					}
+				}
+				pr.Pop(l)
+			}
+		}
 	default:
 		out.Fatalf("unknown mode %v", *mode)
 	}
